@@ -13,12 +13,12 @@ PROP = {
                    "fault positions are universally quantified. The model is run against the real DataTable (dynamic and static column lists, "
                    "with and without row numbers) on every check and must reproduce every answer, the rows, the row numbers and the exact "
                    "content and raw order of every index."),
-    "level_note": ("Partial: the single-column update is proved correct only under the hypothesis the proof forces (the lookup of the old key "
+    "level_note": ("INTERIM (work in progress): property theorems so far cover the queries (every index choice), TryAdd / TryInsert (accepted / refused / every fault position), extract / remove (number, reference, range, predicate), Assign, Clear, copy, index creation after the data and the F9 witness; whole-row update, the positive single-column update and the history theorem are not yet claimed by a theorem. Partial: the single-column update is proved correct only under the hypothesis the proof forces (the lookup of the old key "
                    "does not meet the freshly added entry first) - without it the model exhibits open finding F9, which is proved as a witness. "
                    "Trusted: Lean kernel + 3 standard axioms, extractor, harness (g++, -fno-access-control). Modelled not verified: the index "
                    "hash tables themselves (C01/C13/C08 contracts), std::lower_bound / RadixSorter / std::sort (specifications), raw memory of rows."),
     "modules": ["Momo.Props.C07"],
-    "theorems": [],
+    "theorems": ["Momo.Table.C07_select_eq_scan", "Momo.Table.C07_select_any_index", "Momo.Table.C07_choosePath_valid", "Momo.Table.C07_findByUnique_eq_scan", "Momo.Table.C07_findByMulti_eq_scan", "Momo.Table.C07_add", "Momo.Table.C07_add_ok_iff", "Momo.Table.C07_clear", "Momo.Table.C07_insert", "Momo.Table.C07_extract", "Momo.Table.C07_extractRef", "Momo.Table.C07_removeRows", "Momo.Table.C07_removePred", "Momo.Table.C07_assign", "Momo.Table.C07_copy", "Momo.Table.C07_rows_distinct", "Momo.Table.C07_createUnique", "Momo.Table.C07_createMulti", "Momo.Table.C07_numbers_eq_positions", "Momo.Table.C07_updateCol_F9_witness"],
     "harnesses": [
         {"name": "c07_dyn_nonum", "src": "c07_table.cpp", "flags": ["-DVF_PART=0", "-g0"]},
         {"name": "c07_dyn_num", "src": "c07_table.cpp", "flags": ["-DVF_PART=1", "-g0"]},
